@@ -54,6 +54,7 @@ type FakeSup struct {
 	ExitInExec   map[string]int    // base name -> exit code; the process dies before Exec returns (F-C06-1 window)
 	ExecLatency  time.Duration     // Exec returns this long after the process started
 	FullEnv      bool              // record complete environments in Exec events
+	ExitLag      time.Duration     // the termination event is sent this long after the process died
 	execWaiters  []chan struct{}
 	deliverDelay time.Duration
 }
@@ -151,7 +152,13 @@ func (s *FakeSup) die(p *Proc, exit *int, signo *int, cause string) bool {
 	s.rec.Emit("sup", "ProcExit", "name", p.Name, "kind", p.Kind, "base", p.Base, "gen", p.Gen, "status", status, "cause", cause)
 	// the death is on record before the process's connections break
 	p.cancel()
+	lag := s.ExitLag
 	go func() {
+		if lag > 0 {
+			time.Sleep(lag)
+		}
+		// ExitSend: the earliest moment the watcher can receive the notification
+		s.rec.Emit("sup", "ExitSend", "name", p.Name, "kind", p.Kind, "base", p.Base, "gen", p.Gen, "status", status)
 		s.events <- ev
 		s.rec.Emit("sup", "ExitDelivered", "name", p.Name, "kind", p.Kind, "base", p.Base, "gen", p.Gen, "status", status)
 	}()
